@@ -31,6 +31,7 @@ pub fn db_profile(max_nodes: usize) -> ForestProfile {
         free_roots: false,
         exclude_unknown_color3uint8: false,
         exclude_unknown_types: vec![],
+        multi_spelling: false,
     }
 }
 
@@ -228,7 +229,7 @@ pub fn run(ctx: &Ctx) -> PropertyReport {
     );
     let sub = crate::engine::replay_subcheck_or_all(ctx);
     if sub.runs("equivalence") {
-        let cases = ctx.cfg.cases(12_000, 300_000);
+        let cases = ctx.cfg.cases(40_000, 600_000);
         let mut r = ctx.run_prop("equivalence", cases, || forest::forest(db_profile(8)), body);
         r.floor("instance_with_3_props_of_2_types", cases / 20);
         r.floor("alias_spelling", cases / 200);
